@@ -45,7 +45,7 @@ def same(label, got, want, goals):
         goals.append((label + f" (dtype {np.dtype(got.dtype).name}, expected {np.dtype(want.dtype).name})", z3.BoolVal(False)))
 
 
-def run_paths(keybase, fnname, thunk, witness, extra_backend=None, max_paths=32, timeout_ms=8000, keep_real=(), collapse=True):
+def run_paths(keybase, fnname, thunk, witness, extra_backend=None, max_paths=32, timeout_ms=8000, keep_real=(), collapse=True, contracts=None):
     alg.ESCALATE[0] = not known_related(keybase)
     t0 = time.time()
     results = {}
@@ -53,7 +53,7 @@ def run_paths(keybase, fnname, thunk, witness, extra_backend=None, max_paths=32,
     old_collapse = idx.COLLAPSE[0]
     idx.COLLAPSE[0] = collapse
     try:
-        with stubs.installed({}, keep_real=keep_real, backend=ifns):
+        with stubs.installed(contracts or {}, keep_real=keep_real, backend=ifns):
             for path in explore(thunk, max_paths=max_paths):
                 facts = path["hyps"] + path["pc"]
                 for label, fm, res in path["obs"]:
@@ -62,6 +62,8 @@ def run_paths(keybase, fnname, thunk, witness, extra_backend=None, max_paths=32,
                     e = path["exc"]
                     if isinstance(e, Unsupported):
                         raise e
+                    if isinstance(e, z3.Z3Exception):
+                        raise Unsupported(f"checker limitation: {e}")      # a limitation of the proxies, never a verdict about the code
                     results.setdefault("no exception", []).append((False, f"raises {type(e).__name__}: {str(e)[:300]} on path {path['decisions']}", None))
                     continue
                 for label, fm in path["value"]:
